@@ -68,6 +68,12 @@ def _configs(tier):
     # more than 10 steps with the checkpoint at step 10: a frame header cut inside its step number ("step: 11" -> "step: 1")
     c["bomd_xyz_bytes"] = CR.default_cfg(engine="bomd", steps=12, out=dict(data=0, coordinates=0, velocities=0, forces=0, xyz=1, checkpoint_every=10))
     c["bomd_xyz_bytes"]["tear_xyz"] = True
+    # periodic centre-of-mass removal whose stride does not divide the checkpoint step, on a thermostatted engine (momentum
+    # reappears between removals): the removal schedule of the resumed run must keep the phase of the absolute step count
+    c["langevin_com"] = CR.default_cfg(
+        engine="langevin", mols=["H2O"], steps=7, seed=5, damp=5.0, remove_com=["linear", 2],
+        out=dict(data=1, coordinates=0, velocities=1, forces=0, xyz=0, checkpoint_every=3),
+    )  # fmt: skip
     if tier == "thorough":
         c["bomd_no_data"] = CR.default_cfg(engine="bomd", steps=5, out=dict(data=0, coordinates=1, velocities=2, forces=1, xyz=2, checkpoint_every=2))
         c["ksa"] = CR.default_cfg(engine="ksa", k=4, steps=6, seed=2, mols=["H2O"])
